@@ -202,6 +202,24 @@ class Universe:
                         operator=rnd.choice([ModOperator.post_percent, ModOperator.post_mul, ModOperator.mod_add]),
                         aggregate_mode=rnd.choice(list(ModAggregateMode))))
                 ch.buffs[bid] = tpls
+            # skills that change the buff attributes of the modules on the ship (value: plain dependency of the
+            # boosted attributes; id: the service re-registers the boost when it changes)
+            self.buff_tweaks = []
+            for _ in range(p.get('buff_tweaks', 3)):
+                a, b = rnd.choice(BUFF_ATTRS)
+                if rnd.random() < 0.5:
+                    tgt, op = a, rnd.choice([ModOperator.mod_add, ModOperator.post_assign, ModOperator.mod_add])
+                else:
+                    tgt, op = b, rnd.choice([ModOperator.post_percent, ModOperator.mod_add, ModOperator.post_mul])
+                m = DogmaModifier(affectee_filter=rnd.choice([ModAffecteeFilter.domain, ModAffecteeFilter.domain_group]),
+                                  affectee_domain=ModDomain.ship, affectee_filter_extra_arg=None,
+                                  affectee_attr_id=tgt, operator=op, aggregate_mode=ModAggregateMode.stack,
+                                  affector_attr_id=SKILL_LEVEL)
+                if m.affectee_filter == ModAffecteeFilter.domain_group:
+                    m = DogmaModifier(affectee_filter=ModAffecteeFilter.domain_group, affectee_domain=ModDomain.ship,
+                                      affectee_filter_extra_arg=rnd.choice(self.groups), affectee_attr_id=tgt,
+                                      operator=op, aggregate_mode=ModAggregateMode.stack, affector_attr_id=SKILL_LEVEL)
+                self.buff_tweaks.append(ch.mkeffect(category_id=EffectCategoryId.passive, modifiers=(m,)))
         # types
         self.types = {}
         for st in self.skill_types:
@@ -242,11 +260,12 @@ class Universe:
                 attrs = {}
                 for a, b in BUFF_ATTRS:
                     if rnd.random() < 0.8:
-                        attrs[a] = rnd.choice([7, 8, 9, 55])
+                        attrs[a] = rnd.choice([7, 8, 9, 55, 7.5, 8.75])
                         attrs[b] = rnd.choice(vals)
                 t = ch.mktype(group_id=rnd.choice(self.groups), category_id=TypeCategoryId.module, attrs=attrs,
                               effects=[eff, self.online], default_effect=eff)
                 self.types.setdefault('mh', []).append(t.id)
+                self.types.setdefault('mh_buff', []).append(t.id)
 
     CATS = {'ship': TypeCategoryId.ship, 'mh': TypeCategoryId.module, 'mm': TypeCategoryId.module,
             'ml': TypeCategoryId.module, 'rig': TypeCategoryId.module, 'drone': TypeCategoryId.drone,
@@ -256,6 +275,8 @@ class Universe:
 
     def _mktype(self, rnd, kind, tid):
         effs = rnd.sample(self.effects, rnd.randint(0, min(3, len(self.effects))))
+        if kind == 'skill' and getattr(self, 'buff_tweaks', None):
+            effs += rnd.sample(self.buff_tweaks, rnd.randint(1, 2))
         if kind in ('mh', 'mm', 'ml', 'drone', 'fighter') and rnd.random() < 0.7:
             effs.append(self.online)
         tgt_effs = [e for e in self.effects if e.category_id == EffectCategoryId.target]
@@ -676,6 +697,10 @@ class OpGen:
                     kind = rnd.choice(['mh', 'mm'])
                     ops.append(('rack', fv, RACKS[kind], 'equip', 0, kind, rnd.choice(anyu0.types[kind]), 3, None))
                 ops.append(('add', fv, 'rig', rnd.choice(anyu0.types['rig']), 1, 0))
+                if anyu0.types.get('mh_buff') and self.p.get('fleet_bias'):
+                    # a running fleet booster on every fit, and the skills that change its buff attributes
+                    ops.append(('rack', fv, 'high', 'equip', 0, 'mh', rnd.choice(anyu0.types['mh_buff']), 3, None))
+                    ops.append(('add', fv, 'skill', rnd.choice(anyu0.skill_types), 1, rnd.randint(0, 5)))
                 if getattr(anyu0, 'pymods', False):
                     for _ in range(2):
                         ops.append(('rack', fv, 'mid', 'equip', 0, 'mm', rnd.choice(anyu0.types['mm_py']), 3, 28668))
@@ -711,9 +736,9 @@ class OpGen:
             'mode': 6 if items else 0,
             'charge': 4 if mods else 0,
             'target': 10 if projectors or items else 0,
-            'level': 3,
+            'level': self.p.get('level_weight', 3),
             'source': self.p.get('switch_weight', 2) if ship_ok and self.p.get('switch', True) else 0,
-            'fleet': 4 if any(uu.fleet for uu in w.unis) else 0,
+            'fleet': self.p.get('fleet_weight', 4) if any(uu.fleet for uu in w.unis) else 0,
             'profile': 1,
             'read': 6,
             'read_all': 1,
